@@ -74,6 +74,9 @@ func buildFromDefinition(def *configDefinition, lc *loaderContext) (cfg *Config,
 	cfg = NewConfig()
 
 	for k, v := range def.Contexts {
+		if v == nil {
+			return nil, fmt.Errorf("context %s has empty definition", k)
+		}
 		cfg.Contexts[k], err = buildContext(v)
 		if err != nil {
 			return nil, err
@@ -81,6 +84,9 @@ func buildFromDefinition(def *configDefinition, lc *loaderContext) (cfg *Config,
 	}
 
 	for k, v := range def.Tasks {
+		if v == nil {
+			return nil, fmt.Errorf("task %s has empty definition", k)
+		}
 		cfg.Tasks[k], err = buildTask(v, lc)
 		if cfg.Tasks[k].Name == "" {
 			cfg.Tasks[k].Name = k
@@ -91,6 +97,9 @@ func buildFromDefinition(def *configDefinition, lc *loaderContext) (cfg *Config,
 	}
 
 	for k, v := range def.Watchers {
+		if v == nil {
+			return nil, fmt.Errorf("watcher %s has empty definition", k)
+		}
 		t := cfg.Tasks[v.Task]
 		if t == nil {
 			return nil, fmt.Errorf("no such task %s", v.Task)
